@@ -517,6 +517,21 @@ func init() {
 		vr + "StrInRe": func(fr *frame, args []value) value {
 			return &Sym{SBool, app("str.in_re", lift(args[0]).e, args[1].(string))}
 		},
+		vr + "Same": func(fr *frame, args []value) value {
+			a, b := args[0].(iface), args[1].(iface)
+			if !sameType(a.t, b.t) {
+				return false
+			}
+			sa, oka := a.v.(*Sym)
+			sb, okb := b.v.(*Sym)
+			if oka || okb {
+				return oka && okb && sa.e == sb.e
+			}
+			if a.t == nil {
+				return true
+			}
+			return equalsConcrete(a.t, a.v, b.v)
+		},
 		vr + "Ite": func(fr *frame, args []value) value {
 			c := lift(args[0])
 			a, b := lift(args[1]), lift(args[2])
